@@ -55,6 +55,7 @@ def reset_determinism(hash_mode: int) -> None:
 
 
 logging.getLogger("asyncio").setLevel(logging.CRITICAL + 1)
+logging.getLogger("asphalt.core").setLevel(logging.CRITICAL + 1)
 
 
 # ---------------------------------------------------------------------------------------------
@@ -122,6 +123,7 @@ def execute(check: Any, program: Any, prefix: list[int], hash_mode: int = 0) -> 
         res.outcome = "escaped:" + type(e).__name__
         env.data["escaped"] = e
         env.data["escaped_tb"] = "".join(traceback.format_exception(e))[-3000:]
+    env.in_loop = False
     try:
         check.verdict(env, program, res.outcome)
     except BaseException as e:  # noqa: BLE001
